@@ -11,12 +11,15 @@ import (
 	"fmt"
 	stdhtml "html"
 	"io"
+	"net/url"
 	"os"
 	"sort"
 	"strings"
 	"sync"
+	"unicode"
 
 	xhtml "golang.org/x/net/html"
+	"golang.org/x/net/html/charset"
 )
 
 var counter int
@@ -774,3 +777,109 @@ func RepeatedGroups(groups map[string]int) []string {
 	}
 	return out
 }
+
+// FirstBytes violates R20.10: data delivered together with io.EOF is taken for a failed read.
+func FirstBytes(r io.Reader) ([]byte, error) {
+	buf := make([]byte, 64)
+	n, err := r.Read(buf)
+	if err != nil {
+		return nil, err
+	}
+	return buf[:n], nil
+}
+
+// SniffA / SniffB violate RX.CN: looksLikeMarkup expects its caller to trim, SniffB does not.
+func looksLikeMarkup(data []byte) bool { return len(data) > 0 && data[0] == '<' }
+
+func SniffA(data []byte) bool { return looksLikeMarkup(bytes.TrimSpace(data)) }
+
+func SniffB(data []byte) bool { return looksLikeMarkup(data) }
+
+// Entry / ReadEntry violate R18.19: the stored href is decoded when it is stored and again when it is used.
+type Entry struct{ Href string }
+
+func NewEntry(raw string) Entry {
+	h, _ := url.PathUnescape(raw)
+	return Entry{Href: h}
+}
+
+func ReadEntry(e Entry) string {
+	h, err := url.PathUnescape(e.Href)
+	if err != nil {
+		return e.Href
+	}
+	return h
+}
+
+// XRow / Renumber violate R17.16: a row number lower than the previous one is replaced.
+type XRow struct {
+	R int `xml:"r,attr"`
+}
+
+func Renumber(rows []XRow) {
+	next := 1
+	for i := range rows {
+		row := &rows[i]
+		if row.R < next {
+			row.R = next
+		}
+		next = row.R + 1
+	}
+}
+
+// GridTableCell / ParsedTable violate R16.18: the cell text goes into the row line as it is.
+type GridTableCell struct{ Text string }
+
+type ParsedTable struct{ Rows [][]GridTableCell }
+
+func (pt *ParsedTable) ToText() string {
+	var sb strings.Builder
+	for _, row := range pt.Rows {
+		for j, cell := range row {
+			if j > 0 {
+				sb.WriteString("\t")
+			}
+			sb.WriteString(cell.Text)
+		}
+		sb.WriteString("\n")
+	}
+	return sb.String()
+}
+
+// ItemNode / walkItems violate R19.16: an item without text of its own returns before its children are walked.
+type ItemNode struct {
+	Text string
+	Kids []*ItemNode
+}
+
+func directText(n *ItemNode) string { return strings.TrimSpace(n.Text) }
+
+func walkItems(n *ItemNode, out *[]string) {
+	text := directText(n)
+	if text == "" {
+		return
+	}
+	*out = append(*out, text)
+	for _, k := range n.Kids {
+		walkItems(k, out)
+	}
+}
+
+func WalkItems(n *ItemNode) []string {
+	var out []string
+	walkItems(n, &out)
+	return out
+}
+
+// Printable violates R9.10: every character that is not "printable" is dropped from the text.
+func Printable(s string) string {
+	return strings.Map(func(r rune) rune {
+		if unicode.IsPrint(r) {
+			return r
+		}
+		return -1
+	}, s)
+}
+
+// Transcoded violates R19.17.
+func Transcoded(r io.Reader) (io.Reader, error) { return charset.NewReader(r, "") }
